@@ -110,7 +110,9 @@ def conformance(tag, scn_file, dims, label):
                 f.write(json.dumps(sc) + "\n")
         run_scenarios(part, trace)
         consumed, done, total, stats = run_conform(trace, dims, tag)
-        result["tlc"].append(stats)
+        result["tlc"].append({k: v for k, v in stats.items() if k != "pie_actions_taken"})
+        for a, n in stats.get("pie_actions_taken", {}).items():
+            result.setdefault("pie_actions_taken", {})[a] = result.get("pie_actions_taken", {}).get(a, 0) + n
         result["conforming"] += done
         result["events"] += consumed - 1
         if done >= len(remaining):
@@ -976,5 +978,9 @@ def run_conform(trace_file, dims, tag, timeout=1800):
     if not mm:
         raise ToolError("conformance run failed:\n" + out[-3000:])
     sm = re.search(r"(\d+) states generated, (\d+) distinct states found", out)
+    # per-action counts of the operational specification along the implementation's traces (vacuity guard)
+    acts = {}
+    for am in re.finditer(r"<(\w+) line \d+, col \d+ to line \d+, col \d+ of module Pie>: (\d+):(\d+)", out):
+        acts[am.group(1)] = max(acts.get(am.group(1), 0), int(am.group(3)))
     return int(mm.group(1)), int(mm.group(2)), int(mm.group(3)), {"distinct": int(sm.group(2)) if sm else 0, "generated": int(sm.group(1)) if sm else 0,
-                                                                   "wall_s": round(time.time() - t0, 1)}
+                                                                   "wall_s": round(time.time() - t0, 1), "pie_actions_taken": acts}
